@@ -578,6 +578,22 @@ def render_space(desc, rd, parent_sys):
     return RDGraphSpace(nodes=rd.keep(list(nodes)), edges=rd.keep(list(edges)), units_system=UnitsSystem(**si.sys_dict(ssys)))
 
 
+class InputModified(AssertionError):
+    """a constructor changed an object that belongs to its caller"""
+
+
+def _dict_snapshot(d):
+    out = []
+    for k_, v_ in d.items():
+        vals = getattr(v_, "value", v_)
+        try:
+            vals = [float(x) for x in vals]
+        except TypeError:
+            vals = repr(vals)
+        out.append((repr(k_), vals, str(getattr(v_, "units", ""))))
+    return out
+
+
 def render_system(desc, rd):
     """RDSystem for a description under rendering `rd`."""
     from strengths import RDSystem, UnitsSystem, UnitArray
@@ -633,7 +649,16 @@ def render_system(desc, rd):
         dflt = default_chemostats(desc)
         kw["chemostats"] = {l: rd.seq(list(dflt[k * ncell:(k + 1) * ncell]), integer=True)
                             for k, l in enumerate(labels) if rd.r.random() < 0.5}
+    # the per-species dictionaries are the caller's: building a system from them leaves them as they were, so that the same
+    # dictionaries can serve for the next system (part of the time the system handed on IS that second one)
+    snap = {k_: _dict_snapshot(v_) for k_, v_ in kw.items() if isinstance(v_, dict)}
     system = RDSystem(network=net, space=space, units_system=UnitsSystem(**si.sys_dict(sysu)), **kw)
+    for k_, before in snap.items():
+        if _dict_snapshot(kw[k_]) != before:
+            raise InputModified("RDSystem(...) modified the %s dictionary it was given: %s -> %s" % (k_, before[:3], _dict_snapshot(kw[k_])[:3]))
+    if snap and rd.r.random() < 0.5:
+        system = RDSystem(network=net, space=space, units_system=UnitsSystem(**si.sys_dict(sysu)), **kw)
+        rd.log["built_twice_from_the_same_dictionaries"] = True
     rd.scribble()
     # a copy is the same model: part of the time the system handed to the check is a copy of the one built, made in one of
     # the ways the package offers (copy() of the system, copy.deepcopy, or a system rebuilt from copies of its parts)
